@@ -17,19 +17,21 @@ TRUSTED_BASE = [
     "induction on the length of the byte string: equal initial value and equal step function give equal results for every input",
 ]
 EXPLANATION = (
-    "R1 (proof): each of the 256 literals of _CRC_TABLE equals the table generated from the reflected polynomial 0xA001 (256 obligations). R2 "
-    "(proof): the loop body of Crc16Modbus.calculate is interpreted in the GF(2)-affine domain with a symbolic 16-bit register and a symbolic "
-    "8-bit input; its 16 output bit-forms equal those of the bitwise definition (16 obligations), the initial value folds to 0xFFFF and the "
-    "result is emitted high byte first in 2 bytes (3 obligations) - so calculate() equals CRC-16/MODBUS for every byte string by induction on "
-    "length. R3 validate() compares calculate(buffer) with the given bytes. R4 the checksum span of both header codecs starts at the to-address "
-    "slot and ends at the header end, identical in encoder and decoder, and socket write/read paths sum header span + payload: the value handed "
-    "to validate() is the one read from the stream and the bytes written after the payload are calculate(header span + payload), located by "
-    "position (reaching definitions), not by name. R5 in _read_one_message every path from the failed validation returns None without decoding "
-    "and the success return is dominated by the passed validation; _read delivers only truthy results and resets otherwise. Error-detection "
-    "capability of the generator polynomial is a cited mathematical fact, not checked."
+    'R1 (proof): each of the 256 literals of _CRC_TABLE equals the table generated from the reflected polynomial 0xA001 (256 obligations). R2 (proof): the '
+    'loop body of Crc16Modbus.calculate is interpreted in the GF(2)-affine domain with a symbolic 16-bit register and a symbolic 8-bit input; its 16 output '
+    'bit-forms equal those of the bitwise definition (16 obligations), the initial value folds to 0xFFFF and the result is emitted high byte first in 2 '
+    'bytes (3 obligations) - so calculate() equals CRC-16/MODBUS for every byte string by induction on length. R3 validate() compares calculate(buffer) '
+    'with the given bytes. R4 the checksum span of both header codecs starts at the to-address byte and ends at the header end, identical in encoder and '
+    'decoder - on the encode side decided on the header bytes as built (HeaderEncoder.encode evaluated in the bit domain, struct packs and constant '
+    'prefixes joined with + flattened into per-byte source descriptors: checksum_data must equal header_bytes[to-address:], and the header must have the '
+    "size of the decoder's struct), and socket write/read paths sum header span + payload: the value handed to validate() is the one read from the stream "
+    'and the bytes written after the payload are calculate(header span + payload), located by position (reaching definitions), not by name. R5 in '
+    '_read_one_message every path from the failed validation returns None without decoding and the success return is dominated by the passed validation; '
+    '_read delivers only truthy results and resets otherwise. Error-detection capability of the generator polynomial is a cited mathematical fact, not '
+    'checked. R6 after a failed validation the connection is reset and re-established by the one self-healing path (C07.R2 + C07.R3 re-evaluated).'
 )
 ASSUMPTIONS = ["int.to_bytes(length, byteorder) as documented", "CRC-16 with generator x^16+x^15+x^2+1 detects all single/double-bit errors (for these frame lengths) and all bursts <= 16 bits (textbook property)"]
-FLOORS = {"C06.R1": 256, "C06.R2": 19, "C06.R3": 2, "C06.R4": 6, "C06.R5": 4}
+FLOORS = {"C06.R1": 256, "C06.R2": 19, "C06.R3": 2, "C06.R4": 6, "C06.R5": 4, "C06.R6": 1}
 
 CRC = "pyairtouch.comms.crc16"
 
